@@ -187,6 +187,18 @@ fn check_backend<R: Ring, G: GraphLike + ToCircuit>(
             .vertices()
             .any(|v| g.degree(v) == 1 && g.vertex_type(v) == quizx::graph::VType::Z);
         obs.class_if(has_gadget, "gadgets-before-extraction");
+        // the plain entry point: to_circuit() (no options, by reference) - twice
+        {
+            let what = format!("{backend}: {simp:?}+to_circuit()");
+            let snap0 = crate::oracle::diag::snapshot(&g).map(|s| s.diag);
+            let r1 = guarded(&what, || g.to_circuit())?.map_err(|e| format!("{what}: extraction failed: {}", e.0))?;
+            verify_extracted::<R>(c, &r1, false, &what, obs)?;
+            if crate::oracle::diag::snapshot(&g).map(|s| s.diag) != snap0 {
+                return Err(format!("{what}: the diagram passed by reference was modified"));
+            }
+            let r2 = guarded(&what, || g.to_circuit())?.map_err(|e| format!("{what}: second call failed: {}", e.0))?;
+            verify_extracted::<R>(c, &r2, false, &format!("{what} (second call)"), obs)?;
+        }
         let mut exts = vec![Ext::Gflow, Ext::SimpleGauss];
         if simp == Simp::Flow {
             exts.push(Ext::NoGauss);
@@ -575,7 +587,7 @@ pub fn def(ctx: &Ctx) -> PropertyDef {
     };
     PropertyDef {
         id: "C03",
-        rule: "random unitary circuits (Clifford+T, rational rz/rx, ccx/ccz, swap, pp, xcx; <=5 (6) qubits): to_graph, then {flow_simp, clifford_simp, full_simp} x extractor {gflow single-solution-set, simple-Gauss; Gauss-free for flow} x {exact, up-to-permutation}, both backends: extraction must return Ok, same qubit count, gates in {H, rz, cz, cx, swap}, and the harness simulator must find U_ext proportional to U_orig (exact cross-multiplication; 1e-8 for general phases), resp. U_ext^dagger U_orig = scalar x qubit permutation. CLI: `quizx opt <file> [--full|--flow|--clifford|default]` built from the current tree: exit 0, stdout parses, parsed circuit proportional to the parsed input. Non-trivial = >=2 qubits with an entangling gate and an H or non-Clifford gate. Distinct by hash of the circuit.",
+        rule: "random unitary circuits (Clifford+T, rational rz/rx, ccx/ccz, swap, pp, xcx; <=5 (6) qubits): to_graph, then {flow_simp, clifford_simp, full_simp} x {to_circuit() by reference, twice, leaving the diagram untouched; extractor {gflow single-solution-set, simple-Gauss; Gauss-free for flow} x {exact, up-to-permutation}, both backends: extraction must return Ok, same qubit count, gates in {H, rz, cz, cx, swap}, and the harness simulator must find U_ext proportional to U_orig (exact cross-multiplication; 1e-8 for general phases), resp. U_ext^dagger U_orig = scalar x qubit permutation. CLI: `quizx opt <file> [--full|--flow|--clifford|default]` built from the current tree: exit 0, stdout parses, parsed circuit proportional to the parsed input. Non-trivial = >=2 qubits with an entangling gate and an H or non-Clifford gate. Distinct by hash of the circuit.",
         assumptions: vec![
             "harness simulator (see selftest)",
             "for the CLI the reference is the circuit the front end parses from the file; general phases compared to 1e-5 because QASM literals pass through f32",
